@@ -42,6 +42,9 @@ type variant struct {
 	// grow: partition -> a node that already serves a replica of it (in its own view, same contents) and that the
 	// OTHER nodes learn about through the catalogue entry "add node X to partition p", applied before the question
 	grow map[int]uint64
+	// again: the same caller asks a second time after partition `again-1` (remote) has grown by one item and its only host
+	// has stopped answering: the second answer must be an error, never a number remembered from the first
+	again int
 }
 
 var sizes = []int{1, 2, 4} // unique subset sums: any omission or double count changes the total
@@ -139,8 +142,31 @@ func build(v variant) *explore.Scenario {
 			var err error
 			returned := false
 			ctx, cancel := vctx.WithCancel(context.Background())
+			var preLen, preBytes uint64 // what the partitions hold when the (first) question is asked
+			for p := 0; p < P; p++ {
+				host := c.Nodes[v.placement[p][0]-1]
+				if th, moved := v.trueHost[p]; moved {
+					host = c.Nodes[th-1]
+				}
+				preLen += uint64(host.DS.VerifPartition(p).Len())
+				preBytes += host.DS.VerifPartition(p).BytesSize()
+			}
+			var againLen uint64
+			var againErr error
+			againAsked := false
 			x.S.Spawn("caller", true, func() {
 				gotLen, gotBytes, err = c.Nodes[0].DS.SizeInfo(ctx)
+				if v.again > 0 && err == nil {
+					p := v.again - 1
+					host := c.Nodes[v.placement[p][0]-1]
+					if ierr := host.DS.VerifPartition(p).Index().Insert(world.ID(uint64(100*p+90), 1), []float32{9}, index.Metadata{"k": "again"}, 0); ierr != nil {
+						panic(ierr)
+					}
+					fakes.Registry[world.Addr(host.ID)].Down = true
+					againLen, _, againErr = c.Nodes[0].DS.SizeInfo(ctx)
+					againAsked = true
+					fakes.Registry[world.Addr(host.ID)].Down = false
+				}
 				returned = true
 			})
 			if v.cancel {
@@ -151,6 +177,9 @@ func build(v variant) *explore.Scenario {
 					x.Outcome = "blocked"
 					return &explore.Violation{Key: "sizeinfo-never-returns", Desc: "Dataset.SizeInfo did not return: " + strings.Join(x.S.Blocked(), "; ")}
 				}
+				if againAsked && againErr == nil {
+					return &explore.Violation{Key: "success-despite-failed-lookup:second-question", Desc: fmt.Sprintf("the host of partition %d stopped answering after the first question and the partition had grown; the second SizeInfo returned %d items with nil error", v.again-1, againLen)}
+				}
 				var wantLen, wantBytes uint64
 				for p := 0; p < P; p++ {
 					host := c.Nodes[v.placement[p][0]-1]
@@ -159,6 +188,9 @@ func build(v variant) *explore.Scenario {
 					}
 					wantLen += uint64(host.DS.VerifPartition(p).Len())
 					wantBytes += host.DS.VerifPartition(p).BytesSize()
+				}
+				if v.again > 0 {
+					wantLen, wantBytes = preLen, preBytes
 				}
 				x.Outcome = fmt.Sprintf("len=%d err=%v", gotLen, err != nil)
 				// a fault matters only if a lookup actually failed: failing node asked, or unknown address needed
@@ -198,7 +230,11 @@ func build(v variant) *explore.Scenario {
 					return &explore.Violation{Key: "asked-non-hosting-node", Desc: wrongHost}
 				}
 				for p := 0; p < P; p++ {
-					if n := asked[string(c.Meta.Partitions[p].Id)]; n > 1 {
+					limit := 1
+					if v.again > 0 {
+						limit = 2 // two questions
+					}
+					if n := asked[string(c.Meta.Partitions[p].Id)]; n > limit {
 						return &explore.Violation{Key: "partition-asked-twice", Desc: fmt.Sprintf("partition %d looked up %d times", p, n)}
 					}
 				}
@@ -407,6 +443,7 @@ func main() {
 		// either of them count a partition it does not hold
 		{name: "P2-replica-added-by-catalogue-entry", nodes: 3, placement: [][]uint64{{1}, {2}}, ownView: map[uint64][][]uint64{3: {{1}, {2, 3}}}, grow: map[int]uint64{1: 3}},
 		{name: "P2-replica-added-to-remote-partitions", nodes: 3, placement: [][]uint64{{2}, {2}}, ownView: map[uint64][][]uint64{3: {{2, 3}, {2, 3}}}, grow: map[int]uint64{0: 3, 1: 3}},
+		{name: "P2-asked-twice-host-gone-in-between", nodes: 2, placement: [][]uint64{{1}, {2}}, again: 2},
 		{name: "P3-R2", nodes: 3, placement: [][]uint64{{1, 2}, {2, 3}, {3, 2}}, maxQuick: 1},
 		{name: "P2-fail-rpc", nodes: 3, placement: [][]uint64{{2}, {3}}, failNode: 3, failMode: "rpc"},
 		{name: "P2-fail-down", nodes: 2, placement: [][]uint64{{1}, {2}}, failNode: 2, failMode: "down"},
